@@ -104,12 +104,7 @@ Proof.
   assert (Room : room = if (0 <? c_max_depth c) && (c_max_depth c <? active l1 + Z.of_nat (length ies)) then None else Some l1).
   { unfold room. destruct (0 <? c_max_depth c) eqn:E0; simpl; [|reflexivity]. apply Z.ltb_lt in E0.
     assert (Hp : c_drop_oldest c = false) by (destruct Hpol; [assumption | lia]). rewrite Hp.
-    destruct single.
-    - specialize (Hs eq_refl). rewrite Hs in Hlen. rewrite Hlen. simpl Z.of_nat.
-      destruct (c_max_depth c <=? active l1) eqn:E1; destruct (c_max_depth c <? active l1 + 1) eqn:E2; try reflexivity.
-      + apply Z.leb_le in E1. apply Z.ltb_ge in E2. lia.
-      + apply Z.leb_gt in E1. apply Z.ltb_lt in E2. lia.
-    - destruct (c_max_depth c <? active l1 + Z.of_nat (length ies)); reflexivity. }
+    destruct (c_max_depth c <? active l1 + Z.of_nat (length ies)); reflexivity. }
   rewrite Room.
   destruct ((0 <? c_max_depth c) && (c_max_depth c <? active l1 + Z.of_nat (length ies))).
   - simpl. repeat split; auto.
